@@ -222,3 +222,6 @@ def widths(ctx, lib, rw):
                       % (missing, "; ".join(ex[x] for x in missing if x in ex)), rw.loc())
     else:
         ctx.ok("PYW-2", rw.path, {"producer_widths": sorted(producer), "consumed": {str(k): v[1] for k, v in consumed.items()}}, rw.loc())
+    if ctx.tier == "thorough":
+        ctx.rule("VIEW-1", "every core function reachable from build() has an identical MIR dump in this view and in the default view")
+        binding.cross_view(ctx, "VIEW-1", lib)
